@@ -38,6 +38,15 @@ CLAIMED = {
                 "generated three-module projects (not counted).",
         "note": "Partial: decide half + patterns.",
     },
+    "C10": {
+        "engines": ["A", "Bd"],
+        "technique": "contract-based deductive verification: data-structure contract on NameSelector.get_name (representation invariant, Skolemised "
+                     "injectivity per output directory, frame) with VCs from its AST discharged by z3; call-site obligation on the source-copy destination",
+        "text": "Proved for every NameSelector state satisfying its representation invariant: get_name is idempotent, injective per output directory "
+                "(names differing in case, equal names, unnamed units, operator spellings included) and preserves the invariant. The numbering lemma "
+                "(stem~n injective) is assumed - neither solver decides it - and bounded-checked. The flat src/<basename> copy is a recorded known finding.",
+        "note": "One assumed string lemma; anchors inside a page rely on urllib.parse.quote being injective.",
+    },
 }
 _NB = "no obligations built yet for this property in the current commit (planned in DESIGN.md section 6; technique not switched)"
-NOT_APPLICABLE = {p: _NB for p in ["C01", "C03", "C04", "C08", "C09", "C10", "C11", "C12", "C13", "C14", "C15", "C16", "C17", "C18", "C19", "C20"]}
+NOT_APPLICABLE = {p: _NB for p in ["C01", "C03", "C04", "C08", "C09", "C11", "C12", "C13", "C14", "C15", "C16", "C17", "C18", "C19", "C20"]}
